@@ -88,6 +88,18 @@ partial def expr : P Expr := do
   | "cups" => do let l ← ty; let r ← ty; pure (.cups l r)
   | "caps" => do let l ← ty; let r ← ty; pure (.caps l r)
   | "transpose" => do let a ← expr; let l ← bool; pure (.transpose a l)
+  | "thenN" => do
+    let r ← expr; let n ← nat
+    let mut out : Array Expr := #[]
+    for _ in [0:n] do
+      out := out.push (← expr)
+    pure (.thenN r out.toList)
+  | "tensorN" => do
+    let r ← expr; let n ← nat
+    let mut out : Array Expr := #[]
+    for _ in [0:n] do
+      out := out.push (← expr)
+    pure (.tensorN r out.toList)
   | _ => throw s!"bad expr head {t}"
 
 /-! printing -/
